@@ -101,6 +101,8 @@ def confirm(name, src, checks, tier):
         for extra in os.listdir(src):
             if extra.endswith('.h') or extra.endswith('.hpp'):
                 shutil.copy(os.path.join(src, extra), dst)
+            elif os.path.isdir(os.path.join(src, extra)) and extra in ('avr', 'stub'):
+                shutil.copytree(os.path.join(src, extra), os.path.join(dst, extra), dirs_exist_ok=True)
         json.dump(rec, open(os.path.join(dst, 'meta.json'), 'w'), indent=1)
         print('  kept as seeded/%s' % name)
     else:
